@@ -118,7 +118,7 @@ def parRoot (cfg : Cfg) (forest : List Node) (fuel : Nat) (r : Node) : List Out 
          | .dir d _ => some d.dev
          | _ => some 0)
       else none
-    runOne cfg { path := [r.name], depth := 0, view := v, anc := [], rootDev := rootDev }
+    runOne cfg { path := [r.name], depth := rootDepth, view := v, anc := [], rootDev := rootDev }
       (fun a d p rd => parContents cfg forest fuel a d p rd v.kids)
 
 def parallel (cfg : Cfg) (forest : List Node) (fuel : Nat) (roots : List Node) : List Out :=
